@@ -248,7 +248,13 @@ func (p *parser) parseConditionalExpression(node Node) Node {
 			expr2 = p.parseExpression(0)
 		} else {
 			p.next()
-			expr1 = node
+			// a ?: b is a ? true : b (the condition is a bool). Using the
+			// condition node itself as the first branch made every pass
+			// visit it twice: twice the calls at run time and, nested,
+			// work that doubles with each level.
+			t := &BoolNode{Value: true}
+			t.SetLocation(node.Location())
+			expr1 = t
 			expr2 = p.parseExpression(0)
 		}
 
